@@ -647,6 +647,41 @@ func runC05(cfg *vh.Config) error {
 		res.Sample(map[string]any{"stream": "hand-built", "file": name, "value": fmt.Sprintf("%q", val), "failures": len(fails)}, 3)
 	}
 
+	// two files of ONE package printed by one process, the second with a sub-package in scope that captures the first
+	// part of a foreign package name the first file also refers to (seeded C05-G: a per-package memo of the capture
+	// decision): a.proto prints common.v1.Money, b.proto must print .common.v1.Money
+	{
+		pair := map[string]string{
+			"common/v1/money.proto":  "syntax = \"proto3\";\npackage common.v1;\nmessage Money { string amount = 1; }\n",
+			"hand/v1/common/x.proto": "syntax = \"proto3\";\npackage hand.v1.common;\nmessage Local { string note = 1; }\n",
+			"hand/v1/a.proto":        "syntax = \"proto3\";\npackage hand.v1;\nimport \"common/v1/money.proto\";\nmessage First { common.v1.Money price = 1; }\n",
+			"hand/v1/b.proto":        "syntax = \"proto3\";\npackage hand.v1;\nimport \"common/v1/money.proto\";\nimport \"hand/v1/common/x.proto\";\nmessage Second { .common.v1.Money price = 1; hand.v1.common.Local local = 2; }\n",
+		}
+		parsed, err := tool.ParseProto(ctx, pair, []string{"hand/v1/a.proto", "hand/v1/b.proto"})
+		if err != nil {
+			res.Notes = append(res.Notes, "hand-built same-package pair does not parse: "+trim(err.Error(), 160))
+		}
+		for _, name := range []string{"hand/v1/a.proto", "hand/v1/b.proto"} { // this order: the non-capturing file first
+			for _, fd := range parsed {
+				if fd.Path() != name {
+					continue
+				}
+				caseNo++
+				res.Count("hand-built")
+				distinct.Add("hand-pair:" + name)
+				input := map[string]any{"file": name, "files of the package, printed in this order": []string{"hand/v1/a.proto", "hand/v1/b.proto"}, "source": pair[name]}
+				rt, fails := roundTripOut(ctx, fd, pair)
+				addFile("hand-built", fd, rt, fails, name, input)
+				if len(fails) == 0 {
+					res.Count("hand-built:round trip ok")
+				} else {
+					res.Count("hand-built:round trip fails")
+				}
+				report("hand-built", "C05 two files of one package printed by one process", input, fails)
+			}
+		}
+	}
+
 	// ------------------------------------------------------------ stream 2: compiled j5s packages
 	rp := cfg.R.Fork("c05-packages")
 	nPkg := cfg.Scale(70, 1200)
